@@ -8,7 +8,39 @@ from common import bits, unbits, fb, close, canon_hash
 ID = "C17"
 SECTIONS = []
 LEAN_MODULES = ["QExPy.Props.C17"]
-THEOREMS = []
+THEOREMS = ["QExPy.ArrayEdit.C17_pyIndex_iff",
+            "QExPy.ArrayEdit.C17_pyInsertPos_iff",
+            "QExPy.ArrayEdit.C17_pyIndex_lt",
+            "QExPy.ArrayEdit.C17_pyInsertPos_le",
+            "QExPy.ArrayEdit.C17_pyIndex_zero",
+            "QExPy.ArrayEdit.C17_listEdit_set_number",
+            "QExPy.ArrayEdit.C17_insert_single",
+            "QExPy.ArrayEdit.C17_pos_spec",
+            "QExPy.ArrayEdit.C17_coerceItem_spec",
+            "QExPy.ArrayEdit.C17_coerce_spec",
+            "QExPy.ArrayEdit.C17_refines_list_eq",
+            "QExPy.ArrayEdit.C17_refines_list",
+            "QExPy.ArrayEdit.C17_refines_list_conv",
+            "QExPy.ArrayEdit.C17_run_refines",
+            "QExPy.ArrayEdit.C17_reject_unchanged",
+            "QExPy.ArrayEdit.C17_accept_step",
+            "QExPy.ArrayEdit.C17_name_unit_fixed",
+            "QExPy.ArrayEdit.C17_names_mk",
+            "QExPy.ArrayEdit.C17_names_reindexed",
+            "QExPy.ArrayEdit.C17_names_edit",
+            "QExPy.ArrayEdit.C17_run_name_unit",
+            "QExPy.ArrayEdit.C17_names_run",
+            "QExPy.ArrayEdit.C17_units_mk",
+            "QExPy.ArrayEdit.C17_units_relabelled",
+            "QExPy.ArrayEdit.C17_units_edit",
+            "QExPy.ArrayEdit.C17_units_run",
+            "QExPy.ArrayEdit.C17_mk_run",
+            "QExPy.ArrayEdit.C17_setitem_number_keeps_uncertainty",
+            "QExPy.ArrayEdit.C17_length",
+            "QExPy.ArrayEdit.C17_sum",
+            "QExPy.ArrayEdit.C17_mean",
+            "QExPy.ArrayEdit.C17_std",
+            "QExPy.ArrayEdit.C17_values_errors_run"]
 RULE = ("seeded edit histories (1-15 edits) on initial arrays with no / common / per-element / "
         "relative uncertainties, with or without name and unit: append / insert / delete / item "
         "assignment with a number, a (value, error) pair, a measurement (own name and unit), a list "
